@@ -1187,6 +1187,7 @@ package gorums
 //@     invariant base(nodes) != base(o.old) && base(nodes) != base(o.add) && base(nodes) != base(mgr.nodes) && base(T) != base(mgr.nodes)
 //@     invariant forall(k, 0, len(o.old), at(T, "*RawNode", k) == old(o.old[k]))
 //@     invariant forall(k, 0, len(o.add), at(T, "*RawNode", len(o.old) + k) == old(o.add[k]))
+//@     invariant forall(k, len(o.old), len(T), at(T, "*RawNode", k) == old(o.add[k - len(o.old)]))
 //@     invariant[C14.d] forall(k, 0, len(o.old), o.old[k] == old(o.old[k])) && forall(k, 0, len(o.add), o.add[k] == old(o.add[k]))
 //@     invariant m != nil && forall(id, in(id, m) ==> m[id])
 //@     invariant forall(id, in(id, m) ==> 0 <= pos[id] && pos[id] < len(nodes) && nodes[pos[id]].id == id)
@@ -1198,9 +1199,12 @@ package gorums
 //@   on call "mgr.sortNodes"
 //@     after assert forall(i, 0, len(nodes), nodes[i] != nil)
 //@     after assert forall(k, 0, len(o.old), o.old[k] == old(o.old[k])) && forall(k, 0, len(o.add), o.add[k] == old(o.add[k]))
+//@     after assert[C14.b] forall(i, 0, len(nodes), src[i] < len(o.old) ? nodes[i] == o.old[src[i]] : (src[i] - len(o.old) < len(o.add) && nodes[i] == o.add[src[i] - len(o.old)]))
 //@     after assert[C14.b] forall(i, 0, len(nodes), exists(k, 0, len(o.old), nodes[i] == old(o.old[k])) || exists(k, 0, len(o.add), nodes[i] == old(o.add[k])))
 //@     after assert[C14.b] forall(k, 0, len(o.old), in(old(o.old[k]).id, m))
 //@     after assert[C14.b] forall(k, 0, len(o.add), in(old(o.add[k]).id, m))
+//@     after assert[C14.b] forall(k, 0, len(o.old), 0 <= pos[o.old[k].id] && pos[o.old[k].id] < len(nodes) && nodes[pos[o.old[k].id]].id == o.old[k].id)
+//@     after assert[C14.b] forall(k, 0, len(o.add), 0 <= pos[o.add[k].id] && pos[o.add[k].id] < len(nodes) && nodes[pos[o.add[k].id]].id == o.add[k].id)
 //@     after assert[C14.b] forall(k, 0, len(o.old), exists(i, 0, len(nodes), nodes[i].id == old(o.old[k]).id))
 //@     after assert[C14.b] forall(k, 0, len(o.add), exists(i, 0, len(nodes), nodes[i].id == old(o.add[k]).id))
 //@   on call "OrderedBy(ID).Sort"
